@@ -73,7 +73,8 @@ def axioms():
     A(z3.ForAll([t, x], z3.And(tag(mk[1](t, x)) == t, nk(mk[1](t, x)) == 1, kid(mk[1](t, x), 0) == x), patterns=[mk[1](t, x)]))
     A(z3.ForAll([t, x, y], z3.And(tag(mk[2](t, x, y)) == t, nk(mk[2](t, x, y)) == 2, kid(mk[2](t, x, y), 0) == x,
                                   kid(mk[2](t, x, y), 1) == y), patterns=[mk[2](t, x, y)]))
-    A(z3.ForAll([t, k, arr], z3.And(tag(mkn(t, k, arr)) == t, nk(mkn(t, k, arr)) == k), patterns=[mkn(t, k, arr)]))
+    # (a list has a non-negative length; without the guard the axiom contradicts nkids >= 0 at k < 0)
+    A(z3.ForAll([t, k, arr], z3.Implies(k >= 0, z3.And(tag(mkn(t, k, arr)) == t, nk(mkn(t, k, arr)) == k)), patterns=[mkn(t, k, arr)]))
     A(z3.ForAll([t, k, arr, j], kid(mkn(t, k, arr), j) == arr[j], patterns=[kid(mkn(t, k, arr), j)]))
     A(z3.ForAll([b], z3.And(tag(mkbool(b)) == T('Bool'), boolval(mkbool(b)) == b, nk(mkbool(b)) == 0), patterns=[mkbool(b)]))
     A(z3.ForAll([f], nk(f) >= 0, patterns=[nk(f)]))
@@ -192,8 +193,10 @@ class SemExt(Extension):
     def global_name(self, E, k, name):
         if k.hints.get('ext') != 'sem':
             return None
-        if name == 'sys':
-            return SV('module', None, 'sys')
+        if name in ('sys', 'CTLS', 'LTL'):
+            return SV('module', None, name)
+        if name == 'Kripke':
+            return None
         if name == 'LNot':
             return SV('func', None, ('sem', 'LNot'))
         if name in TAG:
@@ -414,3 +417,71 @@ def install(E):
             q, 'ctls', [('self', 'F')], ret='F', requires=rw_req(tagname, arity), ensures=rw_ens,
             loops=loops, loop_touches={1: {'fs_len', 'fs_el'}}, touches=set(), hints=hints, owner='C05'), FILES['ctls'])
     return ['LNot'] + names
+
+
+# ---- LTL.modelcheck against an assumed contract of _checkE_path_formula (C02) --------------
+state_of = z3.Function('state_of', St, H)            # the hashable value of a state
+satE = z3.Function('satE', F, hp.SetH)               # states with some path (from position 0) satisfying a path formula
+w_sE = z3.Function('w_satE', F, H, W)
+w_sA = z3.Function('w_satA', F, H, W)
+
+
+def path_state_axioms(Vset):
+    """satE(g)[s] <-> s is a state and some path starting at s satisfies g (skolemised)"""
+    g = z3.Const('g!pe', F)
+    s = z3.Const('s!pe', H)
+    w = z3.Const('w!pe', W)
+    return [
+        z3.ForAll([g, s], z3.Implies(satE(g)[s], z3.And(Vset[s], isstart(w_sE(g, s)), state_of(cur(w_sE(g, s))) == s, holds(g, w_sE(g, s)))),
+                  patterns=[satE(g)[s]]),
+        z3.ForAll([g, s, w], z3.Implies(z3.And(Vset[s], isstart(w), state_of(cur(w)) == s, holds(g, w)), satE(g)[s]),
+                  patterns=[z3.MultiPattern(satE(g)[s], isstart(w))]),
+    ]
+
+
+def install_ltl(E):
+    from .contracts_graph import V as Vv, frame
+    from .contracts_kripke import wfK
+    FILE = 'LTL/model_checking.py'
+    common = {'ext': 'sem', 'list_kind': 'fseq'}
+
+    E.register(Contract(
+        '_checkE_path_formula', 'ltl', [('kripke', 'kripke'), ('p_formula', 'F')], ret='set',
+        requires=lambda c: [('kripke_wf', wfK(c.h0, c.kripke.t)), ('restricted', rst(c.p_formula.t))],
+        ensures=lambda c: [('exists_path', hp.seteq(c.h1.set_of(c.res.t), satE(c.p_formula.t))),
+                           ('fresh', z3.And(c.res.t >= c.h0.alloc, c.res.t < c.h1.alloc))],
+        touches={'sets'}, hints=dict(common), owner='C02', assumed=True,
+        note='ASSUMED: the tableau construction (_get_closure, _build_atoms, _Tableu, SCC search) is not within deductive reach; bounded only'), FILE)
+
+    def req(c):
+        f = c.formula.t
+        out = [('kripke_wf', wfK(c.h0, c.kripke.t)),
+               ('A_formulas_have_one_operand', z3.Implies(is_tag(f, 'A'), nk(f) == 1))]
+        if c.side == 'callee':
+            out += [('documented_semantics', z3.And(axioms() + path_state_axioms(Vv(c.h0, c.kripke.t)))),
+                    ('contracts_of_LNot_and_rewriting', z3.And(induction_hypothesis() + lnot_contract_facts()))]
+        return out
+
+    def ens(c):
+        f = c.formula.t
+        g = k0(f)
+        s = z3.Const('s!mc', H)
+        w = z3.Const('w!mc', W)
+        R = c.h1.set_of(c.res.t)
+        k = c.kripke.t
+        # s is in the result iff it is a state and EVERY path starting at s satisfies g
+        return [
+            ('only_states', z3.ForAll([s], z3.Implies(R[s], Vv(c.h0, k)[s]))),
+            ('sound', z3.ForAll([s, w], z3.Implies(z3.And(R[s], isstart(w), state_of(cur(w)) == s), holds(g, w)),
+                                patterns=[z3.MultiPattern(R[s], isstart(w))])),
+            ('complete', z3.ForAll([s], z3.Implies(z3.And(Vv(c.h0, k)[s], z3.Not(R[s])),
+                                                   z3.Exists([w], z3.And(isstart(w), state_of(cur(w)) == s, z3.Not(holds(g, w))))))),
+            ('fresh', z3.And(c.res.t >= c.h0.alloc, c.res.t < c.h1.alloc)),
+        ]
+
+    E.register(Contract(
+        'LTL.modelcheck', 'ltl', [('kripke', 'kripke'), ('formula', 'F'), ('parser', 'none'), ('F', 'none')], ret='set',
+        requires=req, ensures=ens,
+        raises={'TypeError': lambda c: z3.Not(is_tag(c.formula.t, 'A'))},
+        touches={'sets'}, hints=dict(common, path='modelcheck', qual='LTL.modelcheck'), owner='C02',
+        note='object formula A g with one operand, F=None'), FILE)
